@@ -1565,7 +1565,11 @@ zshPrefixLoop:
 	// In short mode, any indexing or suffixes is not allowed, and we don't require '}'.
 	// Zsh is an exception: $foo[1] and $foo[1,3] are valid. Note that $1[x] does not qualify.
 	if pe.Short {
-		if p.lang.in(LangZsh) && p.r == '[' && (len(p.val) != 1 || !positionalRuneParam(p.val[0])) {
+		name := ""
+		if pe.Param != nil {
+			name = pe.Param.Value // not p.val: special parameters like $? do not set it
+		}
+		if p.lang.in(LangZsh) && p.r == '[' && (len(name) != 1 || !positionalRuneParam(name[0])) {
 			p.pos = p.nextPos()
 			p.rune()
 			pe.Index = p.eitherIndex()
